@@ -1,15 +1,18 @@
-SPECIFICATION TraceSpec
+SPECIFICATION Spec
 CONSTANTS
-  Threads = {"t0", "t1", "t2"}
+  Threads = {"t0", "t1"}
   Main = "t0"
   Names <- MCNames
   Default = "numpy"
   PrevScope = "global"
   WithDispatchModes = TRUE
-  MaxOps = 1000000
+  MaxOps = 4
+CONSTRAINT Bound
 INVARIANT TypeOK
+INVARIANT RevertIsOriginal
+INVARIANT NoForeignEinsum
+INVARIANT SavedIsAnOriginal
 INVARIANT OptTakesEffect
 PROPERTY SelectKeepsPlugins
 PROPERTY PluginsKeepSelection
-POSTCONDITION TraceAccepted
-CHECK_DEADLOCK FALSE
+INVARIANT OptTakesEffectOnManagerAttribute
